@@ -998,3 +998,101 @@ func constBits(v ssa.Value) (int64, bool) {
 	}
 	return 0, false
 }
+
+func init() {
+	reg("C15.locks", "LOCK", "the registration DB lock is never held across network input, and never re-acquired by its holder", 10, c15locks)
+	reg("C15.foreign", "GUARD", "UNREGISTER from a connection that is not part of a registration cannot drop it (shared with C14.ephemeral)", 3, c14ephemeral)
+}
+
+// c15locks: a request that stalls (slow or never-finished body, half-sent command) must not pin RegistrationDB.RWMutex.
+func c15locks(c *an.Ctx) {
+	la := c.P.Locks()
+	fns := c.P.PkgFuncs("nsqlookupd")
+	// module functions that (transitively) read from a connection or request body
+	readers := map[*ssa.Function]string{}
+	direct := func(ci ssa.CallInstruction) string {
+		for _, s := range [][2]string{{"io", "ReadAll"}, {"io/ioutil", "ReadAll"}, {"io", "ReadFull"}, {"io", "Copy"}, {"io", "CopyN"},
+			{"bufio", "(*Reader).ReadString"}, {"bufio", "(*Reader).ReadSlice"}, {"bufio", "(*Reader).ReadBytes"}, {"bufio", "(*Reader).Read"}, {"bufio", "(*Reader).ReadLine"},
+			{"encoding/json", "(*Decoder).Decode"}, {"net/http", "(*Request).ParseForm"}} {
+			if an.StdCallee(ci, s[0], s[1]) {
+				return s[0] + "." + s[1]
+			}
+		}
+		if ci.Common().IsInvoke() {
+			switch ci.Common().Method.Name() {
+			case "Read":
+				return "Read (interface)"
+			}
+		}
+		return ""
+	}
+	all := c.P.RepoFuncs()
+	for changed := true; changed; {
+		changed = false
+		for _, fn := range all {
+			if readers[fn] != "" {
+				continue
+			}
+			an.Instrs(fn, func(in ssa.Instruction) {
+				ci, ok := in.(ssa.CallInstruction)
+				if !ok || readers[fn] != "" {
+					return
+				}
+				if _, isGo := in.(*ssa.Go); isGo {
+					return
+				}
+				if d := direct(ci); d != "" {
+					readers[fn] = d
+					changed = true
+					return
+				}
+				if g := an.StaticCallee(ci); g != nil && readers[g] != "" {
+					readers[fn] = an.FnName(g) + " -> " + readers[g]
+					changed = true
+				}
+			})
+		}
+	}
+	n := 0
+	for _, fn := range fns {
+		fl := la.Fns[fn]
+		if fl == nil {
+			continue
+		}
+		an.Instrs(fn, func(in ssa.Instruction) {
+			ci, ok := in.(ssa.CallInstruction)
+			if !ok {
+				return
+			}
+			if _, isGo := in.(*ssa.Go); isGo {
+				return
+			}
+			what := direct(ci)
+			if what == "" {
+				if g := an.StaticCallee(ci); g != nil && readers[g] != "" {
+					what = an.FnName(g) + " -> " + readers[g]
+				}
+			}
+			if what == "" {
+				return
+			}
+			n++
+			_, may := fl.At(in)
+			held := false
+			for _, cl := range may.Classes() {
+				if cl == "RegistrationDB.RWMutex" {
+					held = true
+				}
+			}
+			c.Check(!held, fn, "network input outside the DB lock: "+describeCall(ci), in.Pos(), "", "RegistrationDB.RWMutex may be held while "+what+" reads from the network: a client that never finishes its request pins the lock, every REGISTER/UNREGISTER/IDENTIFY and disconnect cleanup blocks behind it, and once a writer queues all readers block too")
+		})
+	}
+	c.Check(n >= 5, nil, "network reads located", token.NoPos, "", "too few network reads found in nsqlookupd")
+	// no self-nesting (RLock while holding RLock deadlocks as soon as a writer queues in between)
+	for _, e := range la.OrderEdges(fns) {
+		if e.From == "RegistrationDB.RWMutex" && e.To == "RegistrationDB.RWMutex" {
+			c.Bad(e.Fn, "DB lock not re-acquired by its holder ("+e.Via+")", e.Pos, "RegistrationDB.RWMutex is acquired while already held: with a writer queued between the two acquisitions this deadlocks the registry for every connection", nil)
+		}
+	}
+	c.OK(nil, "DB lock self-nesting scanned", token.NoPos, "")
+}
